@@ -11,7 +11,7 @@ CHECKS = {
          "DESIGN.md §4 C11"),
  "C20": ("exploration",
          "bounded-exhaustive enumeration + property-based testing against a reference path model",
-         "All pairs of absolute file paths over {x,y,.,..} to depth 5 (exhaustive, both tiers), normalisation exhaustive to depth 7, random pairs to depth 12; oracle is a reference stack normaliser and an independent interpreter of the produced relative path, plus the repo resolver as inverse.",
+         "All pairs of absolute file paths over {x,y,.,..} to depth 5 (exhaustive, both tiers), normalisation exhaustive to depth 7, random pairs to depth 12; oracle is a reference stack normaliser and an independent interpreter of the produced relative path, plus the repo resolver as inverse. Layouts campaign on the built CLI: generated projects (diverging/re-converging directory trees, output stems with extra dots, operation files in nested directories with equal base names connected by variously spelled #import paths); generate must succeed, every relative module specifier of the declaration files must denote the generated schema module and every source-map source an input file.",
          "POSIX paths; A and B are files that can coexist (neither an ancestor directory of the other); paths climbing above the root are outside the statement.",
          "DESIGN.md §4 C20"),
 }
